@@ -187,9 +187,10 @@ def history_workload(ctx, rng, spec, workdir):
                     ctx.viol("different-seeds-same-samples:%s" % kind, "%s: seeds %s and %s give the identical sample sequence" % (name, ss[i], ss[j]),
                              {"program": name, "seeds": [ss[i], ss[j]]})
         perts = PERTURBATIONS[1:] if spec["tier"] == "thorough" else [PERTURBATIONS[1 + int(i)] for i in rng.permutation(len(PERTURBATIONS) - 1)[:3]]
-        for seed in ss[:1 if spec["tier"] == "quick" else len(ss)]:
-            # a second pristine process must reproduce the canonical samples
-            for pert in ["none"] + list(perts):
+        for si, seed in enumerate(ss):
+            # a second pristine process must reproduce the canonical samples (every seed, seed 0 included);
+            # perturbed histories: every seed in the thorough tier, the first seed in the quick tier
+            for pert in ["none"] + (list(perts) if (spec["tier"] == "thorough" or si == 0) else []):
                 if time.time() - t0 > budget:
                     ctx.obs.add("history shard stopped by time budget")
                     return
